@@ -86,6 +86,22 @@ func jsonCheck(b []byte, trailing bool) string {
 	})
 }
 
+func okBit(c string) string {
+	if c == "OK" {
+		return "1"
+	}
+	return "0"
+}
+
+// errPosOf: the index of an "invalid character" error (code 301), as the model's errPos reports it.
+func errPosOf(c string) string {
+	var code, pos int
+	if n, _ := fmt.Sscanf(c, "ERR %d %d", &code, &pos); n == 2 && code == 301 {
+		return fmt.Sprintf("POS %d", pos)
+	}
+	return "NOPOS"
+}
+
 func jsonLen(b []byte) string {
 	return vh.Recover(func() string {
 		l, err := jdoc.New("d", b, jdoc.AllowTrailingNonSpaceCharacters()).Len()
@@ -352,13 +368,14 @@ func init() {
 		var reqs, impl, inputs []string
 		emit := func(b []byte) {
 			h := vh.Hex(b)
-			reqs = append(reqs, "jscan E "+h, "jscan T "+h, "jscan C "+h, "jscan D "+h, "jscan L "+h)
-			impl = append(impl, jsonEvents(b, false), jsonEvents(b, true), jsonCheck(b, false), jsonCheck(b, true), jsonLen(b))
-			for i := 0; i < 5; i++ {
+			cs, cd := jsonCheck(b, false), jsonCheck(b, true)
+			reqs = append(reqs, "jscan E "+h, "jscan T "+h, "jscan C "+h, "jscan D "+h, "jscan L "+h, "jscan c "+h, "jscan d "+h, "jscan P "+h)
+			impl = append(impl, jsonEvents(b, false), jsonEvents(b, true), cs, cd, jsonLen(b), okBit(cs), okBit(cd), errPosOf(cs))
+			for i := 0; i < 8; i++ {
 				inputs = append(inputs, fmt.Sprintf("%q", b))
 			}
 			rep.Case(string(b), strings.ContainsAny(string(b), "{}[],:\""))
-			if impl[len(impl)-3] == "OK" {
+			if cs == "OK" {
 				rep.Stat("check_ok")
 			} else {
 				rep.Stat("check_err")
@@ -457,10 +474,10 @@ func init() {
 				okd = "1"
 				rep.Stat("accepted_trailing")
 			}
-			reqs = append(reqs, "jscan C "+h, "jscan D "+h, "rfc A "+h, "rfc P "+h)
-			impl = append(impl, c, d, ok, okd)
+			reqs = append(reqs, "jscan C "+h, "jscan D "+h, "rfc A "+h, "rfc P "+h, "jscan c "+h, "jscan d "+h, "jscan P "+h)
+			impl = append(impl, c, d, ok, okd, ok, okd, errPosOf(c))
 			in := fmt.Sprintf("%q", b)
-			inputs = append(inputs, in, in, in, in)
+			inputs = append(inputs, in, in, in, in, in, in, in)
 			// spec validation against the standard library
 			std := stdjson.Valid(b)
 			if std != (c == "OK") {
